@@ -332,8 +332,58 @@ def doSendSub (st : RouteState) (app : RouteApp) (o : Origin) (rest : List Strin
           ⟨k, (subDispatch .harness Gen.Router.execTable o me k).sender, h⟩)
         ({ app := some { app with store := store }, log := st.log ++ recs }, showRes res)
 
+/-- what the dispatcher's `reply` is told about a sub-message handled by module `m`: a recording module answers with the
+events `message`, `rec` and data naming itself; an accepting one with an empty response; a failure arrives as `Err` -/
+def replySeen (app : RouteApp) (k : Kind) (res : Res) : String :=
+  match res with
+  | .ok _ =>
+    match route .harness Gen.Router.execTable k with
+    | .call m _ _ _ =>
+      match app.comp (fieldOfMod m) with
+      | .supplied (.module slot .record tag) => "ok/message+rec/" ++ hex (bytesOfString (slot ++ toString tag))
+      | _ => "ok//~"
+    | _ => "?"
+  | _ => "err"
+
+/-- `send-sub-reply native|lifted KIND H`: one sub-message with reply_on = always; the failure of the module is caught
+by the reply (which succeeds), so the transaction succeeds either way; a failed sub-message leaves no storage effect -/
+def doSendSubReply (st : RouteState) (app : RouteApp) (rest : List String) : RouteState × String :=
+  match rest with
+  | [origin, ks, hs] =>
+    if origin != "native" && origin != "lifted" then (st, "bad-op") else
+    if ks == "wasm" then (st, "bad-op") else
+    match parseItems' [ks, hs] with
+    | some [(k, h)] =>
+      if origin == "lifted" && k == .custom then (st, "bad-op") else
+      let me := if origin == "native" then "cn" else "cl"
+      let triggerOk : Bool :=
+        (match route .harness Gen.Router.execTable .wasm with
+         | .call .wasm .execute _ true => true
+         | _ => false)
+      if !triggerOk then (st, "model-unknown") else
+      let lifted : Option (Kind × Bool) :=
+        if origin == "native" then some (k, true)
+        else match lift .harness Gen.Lift.table k with
+          | .msg k' intact => some (k', intact)
+          | _ => none
+      match lifted with
+      | none => (st, "panic")
+      | some (k', intact) =>
+        if !intact then (st, "model-unknown") else
+        let (res, store, recs) := dispatch app Gen.Router.execTable Kind.parts
+          ⟨k', (subDispatch .harness Gen.Router.execTable .execute me k').sender, h⟩ app.store
+        match res with
+        | .panic => ({ st with log := st.log ++ recs }, "panic")
+        | .unknown => (st, "model-unknown")
+        | _ =>
+          let store' := match res with | .ok _ => store | _ => app.store
+          let rec' : Record := ⟨"wasm", 8, "reply", "-", replySeen app k' res⟩
+          ({ app := some { app with store := store' }, log := st.log ++ recs ++ [rec'] }, "ok")
+    | _ => (st, "bad-op")
+  | _ => (st, "bad-op")
+
 def knownOps : List String :=
-  ["send-top", "send-sub", "send-sub-from", "query", "query-sub", "sudo", "records", "block", "storage-dump", "init-count", "api-prefix", "wasm-gen"]
+  ["send-top", "send-sub", "send-sub-from", "send-sub-reply", "query", "query-sub", "sudo", "records", "block", "storage-dump", "init-count", "api-prefix", "wasm-gen"]
 
 def stepRoute (st : RouteState) (toks : List String) : RouteState × String :=
   match toks with
@@ -358,6 +408,7 @@ def stepRoute (st : RouteState) (toks : List String) : RouteState × String :=
           let (res, store, recs) := runTx app (l.map fun (k, h) => ⟨k, "u1", h⟩)
           ({ app := some { app with store := store }, log := st.log ++ recs }, showRes res)
       | "send-sub", rest => doSendSub st app .execute rest
+      | "send-sub-reply", rest => doSendSubReply st app rest
       | "send-sub-from", entry :: rest =>
         match parseOrigin entry with
         | none => (st, "bad-op")
